@@ -136,7 +136,9 @@ def files_for(fc, rng):
     if fc == 'Long':
         return ['/srv/app/pkg%d/module_%d.py' % (i % 7, i) for i in range(300)]
     if fc == 'Markup':
-        return ['/srv/app/<zq9x onzq9x="1">.py', '/srv/"quoted"&amp;.py', '/srv/{tmpl}{#x}.py']
+        return ['/srv/app/<zq9x onzq9x="1">.py', '/srv/"quoted"&amp;.py', '/srv/{tmpl}{#x}.py',
+                # names are shown as they are - also when they are not in normal form as paths
+                '<a href="http://example.com/x.py">x</a>', '/srv//double/./dot/../up.py', './relative/', 'C:\\win\\path.py']
     if fc == 'SiteFiles':
         import os as _os
         import ast as _ast
